@@ -4,6 +4,6 @@ cd /verif
 for spec in "$@"; do
   p=${spec%%:*}; checks=${spec#*:}
   if [ ! -f /tmp/seed/$p/demo_$p.py ]; then echo "$p: no demo yet"; continue; fi
-  SUFFIX=_r2 bash harness/seedtest.sh $p $checks > build/seed_${SUFFIX:-r}_$p.log 2>&1
+  bash harness/seedtest.sh $p $checks > build/seed_${SUFFIX:-r}_$p.log 2>&1
   echo "== $p: $(grep -E 'passed|demo_with_rc|demo_without_rc|check_.*_rc' build/seed_${SUFFIX:-r}_$p.log | tr '\n' ' ' | cut -c1-400)"
 done
